@@ -143,6 +143,13 @@ def step (st : St) (j : Json) : St × List String :=
     let st : St := { cfg := cfgOf ms, w := { now := 100000 }, pref := parsePref (jStr j "pref") }
     let (st, o) := observe st "cfg"
     (st, [o])
+  | "sort" =>
+    -- the pure helpers: `sortDIDsByMethod`, `sortDIDDocumentsByMethod` (document = ID + its position in the input)
+    let pref := parsePref (jStr j "pref")
+    let ds : List DidId := ((jStrs j "methods").zip (jStrs j "ids")).map (fun (m, i) => { method := m, str := i })
+    let ids := (sortDIDsByMethod Now.absent pref ds).map (·.str)
+    let docs := (sortDocsByMethod Now.absent pref ds.zipIdx).map (fun d => s!"{d.1.str}@{d.2}")
+    (st, [s!"sorted log=0 keys=0 list=ok ids={String.intercalate "," ids} docs={String.intercalate "," docs}"])
   | "tick" =>
     let st := { st with w := tick (jNat j "d") st.w }
     let (st, o) := observe st "tick"
